@@ -2,13 +2,34 @@ package vanguard
 
 var pipeProtocols = [4]Protocol{ProtocolConnect, ProtocolGRPC, ProtocolGRPCWeb, ProtocolREST}
 
+// The thorough tier of the pipeline harnesses is the union of three slices (crossing all of them at once does
+// not finish): 0 = wide configurations (multi-protocol and multi-codec services) with the quick message
+// space; 1 = quick configurations with a deep request side (0-3 messages of 0-2 bytes, every flag);
+// 2 = quick configurations with a deep response side.
+var pipeThoroughSlice int
+
+const (
+	sliceWideCfg = iota
+	sliceDeepReq
+	sliceDeepResp
+)
+
+func wideCfg() bool { return verifTier() == 1 && pipeThoroughSlice == sliceWideCfg }
+
 // pickPipeCfg forks over the configuration space. Quick: single-protocol/-codec services (every
 // client form x target protocol x same/different codec x client/service compression);
-// thorough adds multi-protocol and multi-codec services.
+// thorough (slice 0) adds multi-protocol and multi-codec services.
 func pickPipeCfg() (*pipeCfg, bool) {
+	if verifTier() == 1 {
+		pipeThoroughSlice = verifChoose("thoroughSlice", 3)
+	}
+	return pickPipeCfgSlice()
+}
+
+func pickPipeCfgSlice() (*pipeCfg, bool) {
 	cfg := &pipeCfg{maxMsg: 4096}
 	cfg.client = verifChoose("client", 6)
-	if verifTier() == 1 {
+	if wideCfg() {
 		set := verifChoose("protocols", 15) + 1
 		for i, p := range pipeProtocols {
 			if set&(1<<i) != 0 {
@@ -29,7 +50,7 @@ func pickPipeCfg() (*pipeCfg, bool) {
 		cfg.clientCodec = CodecJSON
 	}
 	nc := 2
-	if verifTier() == 1 {
+	if wideCfg() {
 		nc = 4
 	}
 	switch verifChoose("svcCodecs", nc) {
@@ -59,8 +80,15 @@ func pickPipeCfg() (*pipeCfg, bool) {
 // (client compressed, service without compression)}.
 func pickAdapterCfg() (*pipeCfg, bool) {
 	if verifTier() == 1 {
-		return pickPipeCfg()
+		// thorough: the wide configuration space (harnesses using this family fix their messages themselves)
+		pipeThoroughSlice = sliceWideCfg
+		return pickPipeCfgSlice()
 	}
+	return pickAdapterCfgNarrow()
+}
+
+// pickAdapterCfgNarrow: the adapter family at every tier (harnesses whose own dimensions are large).
+func pickAdapterCfgNarrow() (*pipeCfg, bool) {
 	cfg := &pipeCfg{maxMsg: 4096}
 	cfg.client = verifChoose("client", 6)
 	cfg.svcProtos = []Protocol{pipeProtocols[verifChoose("target", 4)]}
@@ -102,7 +130,8 @@ func pickAdapterCfg() (*pipeCfg, bool) {
 // stream declared a compression (the dimension real clients never vary).
 func pickMsgs(name string, enveloped bool, declaredComp bool, unaryKind bool) []wireMsg {
 	maxF, maxP := 2, 1
-	if verifTier() == 1 {
+	deep := verifTier() == 1 && ((pipeThoroughSlice == sliceDeepReq && name == "req") || (pipeThoroughSlice == sliceDeepResp && name == "resp"))
+	if deep {
 		maxF, maxP = 3, 2
 	}
 	n := 1
@@ -114,7 +143,7 @@ func pickMsgs(name string, enveloped bool, declaredComp bool, unaryKind bool) []
 		// sizes include the empty message; quick fixes the two-message shape to (non-empty, empty)
 		var p int
 		switch {
-		case verifTier() == 1 || n == 1:
+		case deep || n == 1:
 			p = verifChoose(name+".size", maxP+1)
 		case i == 0:
 			p = 1
